@@ -120,7 +120,11 @@ def r3(ctx):
                 bnd = [(lv, lp) for lv, lp in zip(s.loop_vars, s.loops) if lv == k]
                 if bnd:
                     rng = Range(0, tm.length(Attr(m, "clusters")))
-        ok = base_ok and rng in (Range(0, Attr(Attr(m, "arguments"), "num_clusters")), Range(0, tm.length(Attr(m, "clusters")))) and s.guards == tm.TRUE
+        # (a guard that only says the range is not empty - `if K > 0:` around the loop - skips nothing)
+        nonempty = {tm.compare(">", Attr(Attr(m, "arguments"), "num_clusters"), 0).key, tm.compare(">", tm.length(Attr(m, "clusters")), 0).key}
+        gparts = s.guards.parts if isinstance(s.guards, tm.And) else ([] if s.guards == tm.TRUE else [s.guards])
+        ok = base_ok and rng in (Range(0, Attr(Attr(m, "arguments"), "num_clusters")), Range(0, tm.length(Attr(m, "clusters")))) \
+            and all(g_.key in nonempty for g_ in gparts)
         ctx.check(ok, wr, f"`{attr}` is refreshed unconditionally for every cluster k in range(K)", line=s.stmt.lineno, role=f"refresh:{attr}:range",
                   expected="for k in range(K): clusters[k]." + attr + " = ...", found=f"{s.base}.{attr} under {s.guards}, range {rng}")
         if attr == "inverse_covariance" and base_ok:
